@@ -41,7 +41,7 @@ REQUIRED_MONITORS = ["loadable", "content", "logged", "source", "file"]
 REPO_TEXTS = ["local/terms.xml", "terms", "../shared/t.xml", "/abs/path/terms.xml", "C:\\terms.xml"]
 WORDS = ["alpha", "beta", "x", "rec", "stim", "n1", "v 2", "ä", u"cafe\u0301", u"\u2126", u"\u212bm"]
 DTYPES = ["string", "int", "float", "text", "boolean", None, None, "string", "int", "float", "text", "boolean", None, None,
-          "URL", "Text"]        # (a 1.0 file may spell a type name with capitals; the name is kept as written)
+          "URL", "Text", "time", "date", "datetime"]        # (a 1.0 file may spell a type name with capitals; the name is kept as written)
 
 
 def gen_doc(rng, hostile_values=0.15, comments=False):
@@ -69,6 +69,12 @@ def gen_doc(rng, hostile_values=0.15, comments=False):
             return repr(rng.choice([1.5, -2.25, 0.1, 3.0, 1e-5, 0.0, 0.30000000000000004, 3.141592653589793, 1.0 / 3, 1e22]))
         if dtype == "boolean":
             return rng.choice(["true", "False", "1", "0"])
+        if dtype == "time":
+            return rng.choice(["12:30:05", "9:05:00", "23:59:59", "0:0:0", "07:08:09"])
+        if dtype == "date":
+            return rng.choice(["2019-05-06", "2019-5-6", "1999-12-31"])
+        if dtype == "datetime":
+            return rng.choice(["2019-05-06 12:30:05", "2019-5-6 9:05:00", "1999-12-31 23:59:59"])
         if rng.random() < hostile_values:
             return rng.choice(["a,b", 'say "hi"', "[x]", "l1\nl2", " padded ", "semi;colon", "<tag>", "a&b"])
         return rng.choice(WORDS) + str(rng.randrange(100))
